@@ -28,7 +28,9 @@ fn depend(rng: &mut Rng, good: bool) -> String {
             rng.pick(&["../../cat/pkg", "cat/pkg", "../../a/b", "x/y/"])
         )
     } else {
-        rng.pick(&["a:b:c", "x>1>2:a/b", "x:a", "nocolon", "foo-[0-9:a/b", ":", "{a:a/b"]).to_string()
+        rng.pick(&["a:b:c", "x>1>2:a/b", "x:a", "nocolon", "foo-[0-9:a/b", ":", "{a:a/b",
+            // exactly one ':' — a dangling or doubled one is invalid wherever it stands
+            "foo-[0-9]*:../../cat/pkg:", "foo:a/b:", ":foo:a/b", "foo::a/b", "foo:a/b::", "foo:", ":a/b", "::"]).to_string()
     }
 }
 
@@ -72,6 +74,19 @@ fn record(rng: &mut Rng, name: &str, bad_dep: bool, bad_loc: bool, lines: &mut V
     // noise
     if rng.chance(1, 3) {
         body.push(format!("UNKNOWN_KEY={}", value(rng)));
+    }
+    if rng.chance(1, 3) {
+        // near misses of the 15 known keys are unknown keys: ignored, whatever their value
+        let k = *rng.pick(&["DEPENDS", "DEPEND", "BUILD_DEPENDS", "ALL_DEPEND", "ALL_DEPENDSS", "SCAN_DEPEND", "PKGNAMES", "PKG_NAME",
+            "pkgname", "Pkgname", "categories", "Categories", "all_depends", "PKGPATH", "PKG_LOCATIONS", "LOCATION", "MULTI_VERSIONS",
+            "MAINTAINERS", "WEIGHT", "PBULK_WEIGHTS", "SKIP_REASON", "_PKGNAME", "XPKGNAME"]);
+        let v = match rng.below(4) {
+            0 => "foo-1.0 bar-2.0nb1".to_string(),
+            1 => format!("{} {}", depend(rng, true), depend(rng, false)),
+            2 => "../../../bad".to_string(),
+            _ => value(rng),
+        };
+        body.push(format!("{}={}", k, v));
     }
     if rng.chance(1, 4) {
         body.push("no equals sign here".into());
@@ -180,14 +195,22 @@ fn gen_c20(tier: &str, rng: &mut Rng, emit: &mut dyn FnMut(Op)) {
                     a.push(0);
                     a.extend(f.as_bytes());
                     a.push(0);
-                    a.extend(format!("{} of {}", f, String::from_utf8_lossy(name)).as_bytes());
+                    match rng.below(10) {
+                        // the mandatory entry exists but is a directory: still "contains" it
+                        0 => a.extend(b"\x01D"),
+                        // content is returned as it is: byte order mark, blanks, CR LF, empty
+                        1 => a.extend(format!("\u{feff}{} of {}", f, String::from_utf8_lossy(name)).as_bytes()),
+                        2 => a.extend(format!("  {} \r\n\n", f).as_bytes()),
+                        3 => {}
+                        _ => a.extend(format!("{} of {}", f, String::from_utf8_lossy(name)).as_bytes()),
+                    }
                 }
             }
             if rng.chance(1, 2) {
                 a.push(0);
                 a.extend(b"+SIZE_PKG");
                 a.push(0);
-                a.extend(b"12345\n");
+                a.extend(*rng.pick::<&[u8]>(&[b"12345\n", b"\xef\xbb\xbf12345\n", b"\x01D", b"", b"\xef\xbb\xbf\xef\xbb\xbf1", b"1\xef\xbb\xbf"]));
             }
             if rng.chance(1, 4) {
                 a.push(0);
@@ -218,6 +241,15 @@ pub fn gen(id: &str, tier: &str, rng: &mut Rng, emit: &mut dyn FnMut(Op)) {
                 });
             }
             // files are exercised by their own properties; C17 is about parsers and matchers
+            // package-database iteration is an entry point too: its trees are replayed as they are
+            // (the tree encoding is protocol, so it is not mutated)
+            let mut k = 0;
+            for o in pool.iter().filter(|o| o.name == "pkgdb.iter") {
+                k += 1;
+                if k <= (if tier == "thorough" { 400 } else { 60 }) {
+                    emit(o.clone());
+                }
+            }
             pool.retain(|o| !matches!(o.name.as_str(), "distinfo.verify" | "entry.verify" | "pkgdb.iter"));
             let n = if tier == "thorough" { 60000 } else { 4000 };
             fuzz(&pool, n, rng, emit);
